@@ -108,7 +108,8 @@ def make_step(proc, sel, side):
         return DF.unpivot([dict(name='b', keys=dict(k='b'))], [dict(name='k', type='string')],
                           dict(name='v', type='string'), resources=sel)
     if proc == 'set_type':
-        return DF.set_type('a', type='number', resources=sel)
+        # with a transform, so that the rows a set_type touches are visibly different (not merely an equal number of another class)
+        return DF.set_type('a', type='number', resources=sel, transform=lambda v: None if v is None else v + 100)
     if proc == 'set_primary_key':
         return DF.set_primary_key(['b'], resources=sel)
     if proc == 'update_resource':
@@ -377,7 +378,7 @@ def run():
     r = rng(PROP)
     # 3. replay
     items = []
-    frac = {'quick': 0.12, 'thorough': 1.0}[t]
+    frac = {'quick': 0.09, 'thorough': 1.0}[t]
     nsel = 0
     for c in cases:
         full = len(c['names']) <= 3 and t == 'thorough'
